@@ -417,7 +417,12 @@ def _classify_guard(test: ast.AST, defs: Dict[str, str]) -> Optional[str]:
         "where(Z==0.0)[0].size>0": "ANY_ZERO", "(Z==0.0).any()": "ANY_ZERO", "where(Z==0)[0].size>0": "ANY_ZERO", "(Z==0).any()": "ANY_ZERO",
         "shorted.all()": "ALL_SHORTED",
     }
-    return table.get(t)
+    if t in table:
+        return table[t]
+    # tolerance-based zero tests: recognised, and wrong for this property (exact zero only)
+    if "isclose(Z,0" in t or "allclose(Z,0" in t or ("abs(Z)<" in t):
+        return "APPROX_ZERO_ALL" if ("==f.size" in t or ".all()" in t or "allclose" in t) else "APPROX_ZERO_ANY"
+    return None
 
 
 def _is_zero_return(s: ast.stmt) -> bool:
@@ -454,6 +459,15 @@ def _parallel_table(ctx: Ctx, model) -> None:
         if isinstance(s, ast.If):
             visit_chain(s)
     imp = "ImpedanceError"
+    for k in ("APPROX_ZERO_ALL", "APPROX_ZERO_ANY"):
+        if k in seen:
+            ctx.instance("R1.2", "short detection is exact")
+            ctx.violation("R1.2", "Parallel:approximate-short", PAR, seen[k],
+                          f"a branch is declared shorted by a tolerance test ({norm(seen[k].test)} with {defs}): a small but non-zero impedance would short the whole connection instead of entering 1/Σ(1/Z)")
+            if k == "APPROX_ZERO_ALL":
+                seen.setdefault("ALL_ZERO", seen[k])
+            else:
+                seen.setdefault("ANY_ZERO", seen[k])
     # ALL_INF
     ctx.instance("R1.2", "all-open child is skipped")
     a = seen.get("ALL_INF")
